@@ -378,8 +378,16 @@ pub fn c14_record(seed: u64, n: usize, maxops: usize, out: &str) {
             w.put(&json!({"t": "cursor", "n0": n0, "path": path, "rets": rets, "probes": probes,
                           "panicked": !panicked.is_null(), "panic": if panicked.is_null() { json!({}) } else { panicked }}));
         } else {
-            let h = rand_bytes(&mut rng, 12);
-            let needles = ["a", "=", "aa", "ab", "--", "€", "é", "-", "a=", "e"];
+            // half of the haystacks come from a tiny alphabet so that repeated and
+            // self-overlapping patterns actually occur
+            let h = if rng.gen_bool(0.5) {
+                let n = rng.gen_range(0..=14);
+                (0..n).map(|_| b"aab-=="[rng.gen_range(0..6)]).collect::<Vec<u8>>()
+            } else {
+                rand_bytes(&mut rng, 12)
+            };
+            let needles = ["a", "=", "aa", "ab", "--", "€", "é", "-", "a=", "e", "aab", "aaab", "abab", "aba",
+                           "--=", "==a", "-=-", "bab", "aaa"];
             let nd = needles[rng.gen_range(0..needles.len())];
             match guarded(|| helpers_obs(&h, nd)) {
                 Ok(mut v) => {
